@@ -169,7 +169,7 @@ var RangeFunc = function.New(&function.Spec{
 
 		var vals []cty.Value
 
-		if step == cty.Zero {
+		if step.AsBigFloat().Sign() == 0 {
 			return cty.NilVal, function.NewArgErrorf(2, "step must not be zero")
 		}
 		down := step.LessThan(cty.Zero).True()
